@@ -7,3 +7,6 @@ import Solvor.Assign.Theorems
 #print axioms Solvor.Assign.chkAssignment_sound
 #print axioms Solvor.Assign.chkAssignment_optimal
 #print axioms Solvor.Assign.validAsg_ofM
+#print axioms Solvor.Assign.hungarian_certifies
+#print axioms Solvor.Assign.hungarian_optimal
+#print axioms Solvor.Assign.hungarian_empty
